@@ -112,7 +112,7 @@ def emitData (s : Streams) (id len : Nat) (rest : List SFrame) : Streams :=
     | .error .assertFailed => s.panic "assertion failed: self.window_size.0 >= sz as i32 (connection)"
     | _ => s
 
-/-- `pop_frame`'s loop body, with the recursive call abstracted and the DATA arm named -/
+/-- `pop_frame`'s loop body, with the recursive call abstracted -/
 def popBody (rec : Streams → Nat → Streams × Option Streams.OutFrame) (s : Streams) (maxLen : Nat) :
     Streams × Option Streams.OutFrame :=
   match s.qPop .pendingSend with
@@ -141,8 +141,18 @@ def popBody (rec : Streams → Nat → Streams × Option Streams.OutFrame) (s : 
           if len > 0 && len > st.sendFlow.windowSz then
             rec s maxLen
           else
+            let s := s.modStream id fun st => { st with pendingSend := rest }
+            let (st', w, bad) := (s.stream id).sendData len s.prio.maxBufferSize
+            let s := (s.setStream st').wake w
+            let s := if bad then s.panic "assertion failed: self.window_size.0 >= sz as i32 (stream)" else s
+            let s := s.modPrio fun p => { p with flow := (p.flow.assignCapacity len).1 }
+            let (fl, r) := s.prio.flow.sendData len
+            let s := s.modPrio fun p => { p with flow := fl }
+            let s := match r with
+              | .error .assertFailed => s.panic "assertion failed: self.window_size.0 >= sz as i32 (connection)"
+              | _ => s
             let flagEos := if sz > len then false else eos
-            finish (emitData s id len rest) (.data len flagEos { key := id, sid := st.id, rest := sz - len, eos := eos })
+            finish s (.data len flagEos { key := id, sid := st.id, rest := sz - len, eos := eos })
     | .headers heos fields :: rest =>
       finish (s.modStream id fun st => { st with pendingSend := rest }) (.headers st.id heos fields)
     | .reset reason :: rest =>
@@ -173,10 +183,7 @@ def popBody (rec : Streams → Nat → Streams × Option Streams.OutFrame) (s : 
 
 /-- `popBody` is `pop_frame`'s body, literally (this `rfl` is the check that the copy above is faithful) -/
 theorem popFrame_succ (fuel : Nat) (s : Streams) (maxLen : Nat) :
-    Streams.popFrame (fuel + 1) s maxLen = popBody (Streams.popFrame fuel) s maxLen := by
-  rw [Streams.popFrame]
-  unfold popBody emitData
-  rfl
+    Streams.popFrame (fuel + 1) s maxLen = popBody (Streams.popFrame fuel) s maxLen := rfl
 
 theorem popFrame_zero (s : Streams) (maxLen : Nat) : Streams.popFrame 0 s maxLen = (s, none) := rfl
 
